@@ -488,6 +488,8 @@ def _lod_call(inp, W, data):
 def lod_op(inp, W):
     from .tree import Raised
     data = inp["data"]
+    if inp.get("pre") == "group_by":
+        data.group_by("k")            # marks the object itself (the returned list is not used)
     before = [dict(x) for x in data]
     try:
         out = _lod_call(inp, W, data)
@@ -510,7 +512,11 @@ def lod_join(inp, W):
 @op
 def lod_aggregate(inp, W):
     data = inp["data"]
-    out = data.group_by(*inp["by"]).aggregate(n=len, ids=lambda g: [x["id"] for x in g])
+    g = data.group_by(*inp["by"])
+    if inp.get("derive"):
+        g.aggregate(n=len)                                   # a first aggregate on the grouped list
+        g = g[1:] if inp["derive"] == "slice" else g.reverse()    # a list derived from it keeps the grouping
+    out = g.aggregate(n=len, ids=lambda g: [x["id"] for x in g])
     return {"out": out}
 
 # ---------------------------------------------------------------------------- C17 shared-dict discipline
@@ -589,7 +595,29 @@ def lod_history(inp, W):
         w0 = warnings[i]; use(i, uses[how]); first.append(warnings[i] - w0)
     for i in range(len(nodes)):
         w0 = warnings[i]; use(i, lambda x: x.pluck); second.append(warnings[i] - w0)
-    return {"flags": flags, "warnings_total": list(warnings), "second_use": second, "first_use": first}
+    res = {"flags": flags, "warnings_total": list(warnings), "second_use": second, "first_use": first}
+    if inp.get("late"):
+        # a list derived after the edit (possibly from a list that is obsolete by now), then an edit through it
+        t = inp["late"]["target"]; m = inp["late"]["method"]
+        buf = io.StringIO()
+        with contextlib.redirect_stdout(buf):
+            x = nodes[t]
+            late = x.copy() if m == "copy" else x[0:5] if m == "slice" else x.filter(lambda item: True) if m == "filter" else x.sort(id=1)
+        res["late_born_obsolete"] = bool(list.__getattribute__(late, "_obsolete"))
+        buf = io.StringIO()
+        with contextlib.redirect_stdout(buf):
+            late.pluck
+        res["late_warns_when_fresh"] = buf.getvalue().count(WARNING_TEXT)
+        buf = io.StringIO()
+        with contextlib.redirect_stdout(buf):
+            child = late.modify(z2=lambda item: 2)
+        res["late_obsolete_after_edit"] = bool(list.__getattribute__(late, "_obsolete"))
+        res["late_child_obsolete"] = bool(list.__getattribute__(child, "_obsolete"))
+        buf = io.StringIO()
+        with contextlib.redirect_stdout(buf):
+            late.pluck; late.pluck
+        res["late_warns_after_edit"] = buf.getvalue().count(WARNING_TEXT)
+    return res
 
 # ---------------------------------------------------------------------------- C07 aggregation helpers
 
